@@ -8,7 +8,7 @@
 2. StepInterp: Engine I with one loop of the analysed function treated as
    "havoc, one generic iteration" (step mode) or "havoc, leave" (exit mode).
 """
-from .interp import (Interp, Obj, Sym, Term, Lin, View, Infeasible, NoReturn, vkey,
+from .interp import (Interp, Obj, Sym, Term, Lin, View, Infeasible, NoReturn, vkey, is_opaque,
                      _Break, _Continue)
 from .build import AnalysisBroken
 
@@ -215,6 +215,42 @@ class Budgeted(Interp):
             if time.process_time() > self.deadline:
                 raise AnalysisBroken('exploration budget exceeded in %s()' % fn.name)
         return Interp.call_fn(self, unit, fn, args)
+
+
+class GuardInterp(Budgeted):
+    """Engine I that records the outcome of a `switch` on an opaque value as path facts. The base class narrows the
+    interval of the value for the chosen `case` and records nothing for `default`, so a Summary built from ctx.facts
+    would apply to states the path was not taken for; here `v == x` (case) / `v != x` for every label (default) become
+    facts, which Summary compiles into the guard like the comparisons of `if`."""
+
+    def pick_arm(self, v, arms, cond):
+        if isinstance(v, View):
+            v = self.settle(v)
+        if isinstance(v, (View, int)) or not is_opaque(v):
+            return Interp.pick_arm(self, v, arms, cond)
+        ctx = self.ctx
+        k = vkey(v)
+        b = ctx.bounds.get(k)
+        default, opts, labels = None, [], []
+        for idx, vals, is_def in arms:
+            if is_def:
+                default = idx
+            for x in vals:
+                labels.append(x)
+                if b is None or (b[0] <= x <= b[1]):
+                    opts.append((idx, x))
+        opts.append((default, None))
+        i = ctx.choose(len(opts), 'switch ' + cond.src())
+        idx, x = opts[i]
+        if x is not None:
+            ctx.bounds[k] = [x, x]
+            ctx.facts[('term', '==', k, x)] = True
+            ctx.note('%s == %d' % (cond.src(), x))
+        else:
+            for y in labels:
+                ctx.facts[('term', '==', k, y)] = False
+            ctx.note('%s -> default' % cond.src())
+        return idx
 
 
 class StepInterp(Budgeted):
